@@ -1,3 +1,4 @@
+import SSVerif.Generated.TextInConsts
 /-!
 # M16/M17 — text tokenisers over an untrusted byte buffer (C10)
 
@@ -21,7 +22,7 @@ abbrev Buf := Array UInt8
 /-- `isspace_c` (`strfuncs.c:52`): `strchr(" \t\n\r\v\f", ch) != NULL`.  `strchr` finds the
 terminating NUL of its first argument, so **NUL is white space** for the tokeniser. -/
 def isSpaceC (b : UInt8) : Bool :=
-  b == 32 || b == 9 || b == 10 || b == 13 || b == 11 || b == 12 || b == 0
+  Generated.TextIn.isspaceChars.contains b || b == 0
 
 /-- `isspace` of the C locale (what `strtol`/`strtod`/`scanf` skip): space and `\t \n \v \f \r`. -/
 def isSpaceLibc (b : UInt8) : Bool := b == 32 || (9 ≤ b && b ≤ 13)
